@@ -215,7 +215,7 @@ def cmd_check(args):
     if not sel:
         print('UNDECIDED property=%s reason=no unit built for this property' % pid)
         return 2
-    known = [k for k in load_known() if k.get('property') == pid]
+    known = load_known()   # a finding suppresses its obligation under every property; it is printed only under its own
     work = mkwork()
     viol_lines = []
     undecided = []
@@ -329,7 +329,7 @@ def cmd_check(args):
 
     seen = set()
     for k, un, jn, o in known_hit:
-        if k['text'] in seen:
+        if k['text'] in seen or k.get('property') != pid:
             continue
         seen.add(k['text'])
         print('KNOWN-FINDING: property=%s %s' % (pid, re.sub(r'^property=\S+\s*', '', k['text'][len('finding:'):].strip())))
